@@ -168,7 +168,7 @@ void RegxParser::processNext() {
                     fOffset++;
                 }
                 else {
-                    throw XMLErrs::Expected2ndSurrogateChar;
+                    ThrowXMLwithMemMgr(ParseException,XMLExcepts::Parser_Descape4, fMemoryManager);
                 }
             }
 
@@ -229,7 +229,7 @@ void RegxParser::processNext() {
                     fOffset++;
                 }
                 else {
-                    throw XMLErrs::Expected2ndSurrogateChar;
+                    ThrowXMLwithMemMgr(ParseException,XMLExcepts::Parser_Descape4, fMemoryManager);
                 }
             }
     }
